@@ -150,9 +150,9 @@ CHECKERS = {"values": chk_values, "refuse": chk_refuse, "rpe_pipeline": chk_rpe_
 
 def _cases(tier, seed):
     rng = np.random.default_rng(seed + 202)
-    K = 50 if tier == "quick" else 2500
+    K = 50 if tier == "quick" else 350
     for it in range(K):
-        n = int(rng.integers(3, 15)) if it % 3 else int(rng.integers(3, 200 if tier == "quick" else 3000))
+        n = int(rng.integers(3, 15)) if it % 3 else int(rng.integers(3, 200 if tier == "quick" else 1500))
         sd = int(rng.integers(0, 10**9))
         unit = ["frames", "meters", "radians", "degrees"][it % 4]
         delta = {"frames": int(rng.integers(1, 5)), "meters": float(rng.uniform(0.2, 3)),
@@ -172,7 +172,7 @@ def bounded(tier, seed):
                  rule="synchronised pairs x delta in frames/meters/radians/degrees x consecutive|all_pairs x pairs_from_reference "
                       "x 7 relations, stationary stretches (zero reference distances) injected; values and end indices vs. the "
                       "definition on the selector's pairs; separate rigid motions; rpe() flag combinations x planes",
-                 bounds={"max_poses": 200 if tier == "quick" else 3000, "seed": seed})
+                 bounds={"max_poses": 200 if tier == "quick" else 1500, "seed": seed})
 
 
 def concretize(vc, tier, seed):
